@@ -29,6 +29,9 @@ type c16Case struct {
 	Dst         string `json:"dst,omitempty"`
 	N           int    `json:"n,omitempty"`
 	EOFWithData bool   `json:"eof_with_data,omitempty"`
+	// Tight: the tree has one file that cannot fit into the destination, between files that can: the copy may
+	// fail, but it must not report success unless the destination equals the source
+	Tight bool `json:"tight,omitempty"`
 }
 
 // bigFS is a synthetic read-only fs.FS holding one large file generated on the fly (streaming path).
@@ -214,6 +217,11 @@ func c16Run(c core.Case, env *core.Env) core.Result {
 	switch p.Mode {
 	case "copy":
 		t := c16Tree(r, p.Dst == "fat12")
+		if p.Tight {
+			big := map[string]int{"fat12": 4<<20 + 300000, "fat16": 16<<20 + 500000, "fat32": 35 << 20, "ext4": 33 << 20}[p.Dst]
+			t = append(t, TNode{Path: "docs/m_too_big_for_the_destination.bin", Size: big, Seed: r.Uint64(), Kind: "prf"},
+				TNode{Path: "src/z_after_the_big_one.txt", Size: 3000, Seed: r.Uint64(), Kind: "text"}, TNode{Path: "zz_last.txt", Size: 10, Seed: r.Uint64(), Kind: "text"})
+		}
 		src, cleanup, err := c16Source(p.Src, t, env, core.Hash(c.ID))
 		if err != nil {
 			res.Inconclusive = "could not build the source: " + err.Error()
@@ -229,6 +237,16 @@ func c16Run(c core.Case, env *core.Env) core.Result {
 		if pi := core.Guard(func() { cerr = fsync.CopyFileSystem(src, dst) }); pi != nil {
 			fail("copy-panic", pi.Top+":"+pi.Class, "CopyFileSystem(%s -> %s) panicked: %s", p.Src, p.Dst, pi.Msg)
 			return res
+		}
+		if cerr != nil && p.Tight {
+			// an honest refusal: the destination has no room for one of the files
+			res.Count("tight.copy_refused", 1)
+			res.Mark("copy into a destination too small for one file: refused")
+			res.Sig("tight", p.Src, p.Dst, "refused")
+			return res
+		}
+		if p.Tight {
+			res.Count("tight.copy_reported_success", 1)
 		}
 		if cerr != nil {
 			fail("copy-error", p.Src+"->"+p.Dst, "CopyFileSystem(%s -> %s) of a representable tree failed: %v", p.Src, p.Dst, cerr)
@@ -264,6 +282,9 @@ func c16Run(c core.Case, env *core.Env) core.Result {
 			nb++
 			if nb <= 3 {
 				cause := p.Src + "->" + p.Dst
+				if p.Tight {
+					cause = "success-reported-for-a-destination-without-room/" + p.Dst
+				}
 				if strings.Contains(detail, "lost+found") || strings.Contains(detail, ".DS_Store") {
 					cause = "excluded-name-copied"
 				}
@@ -581,7 +602,7 @@ func init() {
 		Rule:        "CopyFileSystem from {os directory, fat32, ext4, iso9660 (Rock Ridge), squashfs} into {fat12, fat16, fat32, ext4}: generated trees (directories incl. an empty one, files of 0..100000 bytes around the 32 KiB compare-chunk edges, FAT-legal long names, the excluded names lost+found/.DS_Store present in the source); the re-opened destination is walked by the harness and matched against the source tree by content and exact names, CompareFS must accept the faithful copy in both argument orders and reject one real byte flip; a file above the 64 MiB streaming threshold is copied from a synthetic generator source that hands out odd-sized pieces and ends either with a separate (0, EOF) or with the last piece and EOF together, as the library's own handles do (one pairing in quick, all in thorough); CompareFS on in-memory trees must return nil exactly for equal trees over every single-point mutation (byte flipped at first/middle/last/32 KiB chunk edges +-1, file shortened/lengthened by one, entry missing, extra file, extra empty directory, file<->directory swap, differences only under excluded names, an extra entry sorting first/last in every directory) in both orders, each also with entries bearing the excluded names (as files and as directories) placed in every directory of both sides, of the mutant only and of the original only, and with one side delivering file contents in short reads of varying sizes; non-trivial = a copy compared or a mutation evaluated; distinct = distinct (pairing, tree) / (mutation, iteration)",
 		Assumptions: []string{"trees are restricted to what every destination can represent (no symlinks, FAT-legal names)", "the destination's own empty lost+found (ext4) is ignored"},
 		MinSigs:     map[string]int{"quick": 150, "thorough": 3000},
-		NeedMarks:   []string{"streaming path (file > 64 MiB)", "compare mutations", "copy osdir->fat32", "copy squashfs->ext4", "copy iso9660->fat16", "copy ext4->fat12"},
+		NeedMarks:   []string{"streaming path (file > 64 MiB)", "compare mutations", "copy osdir->fat32", "copy squashfs->ext4", "copy iso9660->fat16", "copy ext4->fat12", "copy into a destination too small for one file: refused"},
 		CPUSec:      900,
 		Cases: func(seed int64, tier string) []core.Case {
 			r := gen.New(seed ^ 0xC16)
@@ -596,6 +617,13 @@ func init() {
 						cs = append(cs, core.MkCase(fmt.Sprintf("copy-%s-%s-%d", s, d, rep), "copy", r.Int63(), c16Case{Mode: "copy", Src: s, Dst: d}))
 					}
 				}
+			}
+			tight := [][2]string{{"osdir", "fat12"}, {"squashfs", "fat12"}, {"osdir", "fat16"}}
+			if tier == "thorough" {
+				tight = append(tight, [2]string{"fat32", "fat16"}, [2]string{"osdir", "fat32"}, [2]string{"osdir", "ext4"}, [2]string{"ext4", "fat12"}, [2]string{"iso9660", "fat12"})
+			}
+			for i, sd := range tight {
+				cs = append(cs, core.MkCase(fmt.Sprintf("tight-%s-%s-%d", sd[0], sd[1], i), "copy", r.Int63(), c16Case{Mode: "copy", Src: sd[0], Dst: sd[1], Tight: true}))
 			}
 			for i := 0; i < 8; i++ {
 				cs = append(cs, core.MkCase(fmt.Sprintf("mutations-%d", i), "compare", r.Int63(), c16Case{Mode: "compare-mutations", N: muts}))
